@@ -18,8 +18,15 @@ State (the fields of `Conn` the calls look at):
   * `wfail` — how the transport answers writes from now on;
   * `outLog` — the records this side wrote (type, first payload bytes), to state "close_notify once".
 
-The transport hands over one record per transport read (the driver arranges that), so
-`c.rawInput` never holds bytes of a later record and the close-notify look-ahead of `Read` never fires.
+  * `seg` / `raw` — how the transport cuts the byte stream into reads, and what `c.rawInput`
+    therefore holds beyond the record being processed.  `seg = .record`: one transport read never
+    crosses a record boundary (a pipe that delivers one write per read), `c.rawInput` never holds
+    bytes of a later record and the close-notify look-ahead of `Read` never fires.  `seg = .all`:
+    a transport read returns everything the transport holds at that moment (a TCP socket whose
+    receive buffer holds several segments; exact for real reads while fewer than `bytes.MinRead`
+    = 512 bytes are pending), so the records the peer wrote back to back — its last data record
+    and its close_notify — sit in `c.rawInput` together.  `raw` counts the leading items of `queue`
+    whose bytes are already buffered in `c.rawInput`.
 
 Core Lean only.
 -/
@@ -42,6 +49,7 @@ inductive ApiErr
   | transportPerm       -- any other transport error
   | handshakeFailed (tag : Nat)   -- whatever handshakeFn returned
   | internal
+  | block               -- the call had not returned when the caller's deadline passed (nothing latched)
 deriving Repr, DecidableEq
 
 def ofRx : RxErr → ApiErr
@@ -71,6 +79,12 @@ deriving Repr, DecidableEq
 inductive WFail | none | temp | perm
 deriving Repr, DecidableEq
 
+/-- how the transport cuts the byte stream into reads -/
+inductive Seg
+  | record     -- a transport read never crosses a record boundary
+  | all        -- a transport read returns everything the transport holds
+deriving Repr, DecidableEq
+
 structure Conn where
   /-- the source's `Read` starts with the `activeCall` close-bit test (the repair of F38) -/
   rcc : Bool := Facts.tlcp.apiReadChecksClosed
@@ -88,6 +102,9 @@ structure Conn where
   queue : List InItem := []
   wfail : WFail := .none
   outLog : List (Nat × Bytes) := []
+  seg : Seg := .record
+  /-- number of leading items of `queue` whose bytes `c.rawInput` already holds -/
+  raw : Nat := 0
 deriving Repr, DecidableEq
 
 inductive Call
@@ -173,6 +190,51 @@ def outErrAfter (old new : RxState) (outErr : Option ApiErr) : Option ApiErr :=
   | some a => some (.localAlert a)
   | none => outErr
 
+/-- the type byte a record carries on the wire (see `forgedMark`) -/
+def wireType (t : Nat) : Nat := if t ≥ forgedMark then t - forgedMark else t
+
+/-- first byte of what follows in the transport stream, if any -/
+def nextWire (ws : List (Wire Bytes)) (t : Tail) : Option Nat := (nextType ws t).map wireType
+
+/-- the transport stream ends with the bytes of an incomplete record -/
+def tailBytes : Option InItem → Bool
+  | some (.eof (some _)) => true
+  | _ => false
+
+/-- `raw` after `k` more leading records were consumed and `m` are left: served from
+`c.rawInput` while it lasts; otherwise a transport read happened (`readFromUntil`), which in
+`.record` mode fetched exactly the record asked for and in `.all` mode everything there was -/
+def rawAfter (seg : Seg) (raw k m : Nat) (tb : Bool) : Nat :=
+  if k ≤ raw then raw - k else
+  match seg with
+  | .record => 0
+  | .all => m + (if tb then 1 else 0)
+
+/-- the end of `Conn.Read` after `n, _ := c.input.Read(b)`:
+`if n != 0 && c.input.Len() == 0 && c.rawInput.Len() > 0 && recordType(c.rawInput.Bytes()[0]) == recordTypeAlert`
+one more `c.readRecord()`, whose error (end-of-stream for a close_notify) is returned with the
+bytes.  `pk` = the last two conjuncts. -/
+def lookAhead (t : Tail) (pk : Bool) (rx : RxState) (ws : List (Wire Bytes)) (out : Bytes) :
+    (RxState × List (Wire Bytes)) × ReadRes :=
+  if out ≠ [] && rx.input == [] && pk then
+    match pump P plainDec Ctx.established t true rx ws with
+    | (s3, ws3, .err e) => ((s3, ws3), .okErr out e)
+    | (s3, ws3, .blocked) => ((s3, ws3), .blocked out)
+    | (s3, ws3, _) => ((s3, ws3), .ok out)
+  else ((rx, ws), .ok out)
+
+/-- the record-layer part of one `Read` over the leading records `ws` of the transport queue:
+the loop `for c.input.Len() == 0 { c.readRecord() }`, `c.input.Read(b)`, the look-ahead; with the
+bookkeeping of `c.rawInput` -/
+def readRec (t : Tail) (seg : Seg) (raw : Nat) (tb : Bool) (rx : RxState) (ws : List (Wire Bytes)) (n : Nat) :
+    ((RxState × List (Wire Bytes)) × ReadRes) × Nat :=
+  let r1 := readCall P plainDec Ctx.established t rx ws n false
+  let raw1 := rawAfter seg raw (ws.length - r1.1.2.length) r1.1.2.length tb
+  let r2 := match r1.2 with
+    | .ok out => lookAhead t (decide (raw1 > 0) && nextWire r1.1.2 t == some P.tAlert) r1.1.1 r1.1.2 out
+    | _ => r1
+  (r2, rawAfter seg raw1 (r1.1.2.length - r2.1.2.length) r2.1.2.length tb)
+
 def read (c : Conn) (n : Nat) : Conn × Res :=
   if c.rcc && c.closedBit then (c, .err .closed) else
   match handshake c false with
@@ -189,8 +251,8 @@ def read (c : Conn) (n : Nat) : Conn × Res :=
       ({ c with inErrX := some .closed }, .err .closed)
     else
     let (ws, it, rest) := splitQueue c.queue
-    let ((rx', ws'), r) := readCall P plainDec Ctx.established (tailOf it) c.rx ws n false
-    let c' := { c with rx := rx', queue := requeue ws' it rest, outErr := outErrAfter c.rx rx' c.outErr }
+    let (((rx', ws'), r), raw') := readRec (tailOf it) c.seg c.raw (tailBytes it) c.rx ws n
+    let c' := { c with rx := rx', raw := raw', queue := requeue ws' it rest, outErr := outErrAfter c.rx rx' c.outErr }
     match r with
     | .ok d => (c', .ok d)
     | .okErr d e => (c', .okErr d (ofRx e))
@@ -202,7 +264,7 @@ def read (c : Conn) (n : Nat) : Conn × Res :=
         ({ c' with queue := requeue ws' none rest }, if d = [] then .err .transportTemp else .okErr d .transportTemp)
       | some .permErr =>
         ({ c' with inErrX := some .transportPerm }, if d = [] then .err .transportPerm else .okErr d .transportPerm)
-      | _ => (c', .wouldBlock)
+      | _ => (c', if d = [] then .wouldBlock else .okErr d .block)
 
 /-- `sendAlertLocked(alertCloseNotify)` inside `closeNotify` -/
 def closeNotify (c : Conn) : Conn × Option ApiErr :=
